@@ -55,10 +55,10 @@ def cxx_flags(repo: Path = REPO) -> list[str]:
 
 
 def _prune(keep: str, kind: str) -> None:
-    # keep disk use bounded: at most 3 builds of each kind
+    # keep disk use bounded: at most 9 builds of each kind (a build is ~5 MB)
     ds = sorted((d for d in BUILD_ROOT.glob(f'{kind}-*') if d.is_dir() and d.name != keep),
                 key=lambda d: d.stat().st_mtime)
-    for d in ds[:-2]:
+    for d in ds[:-8]:
         shutil.rmtree(d, ignore_errors=True)
 
 
@@ -73,7 +73,12 @@ def build(repo: Path = REPO, san: bool = False, quiet: bool = True) -> Path:
         os.utime(out)
         return out
     if out.exists():
+        shutil.rmtree(out, ignore_errors=True)
+    final_out = out
+    out = BUILD_ROOT / f'.tmp-{key}-{os.getpid()}'      # build privately, publish by rename (concurrent builders)
+    if out.exists():
         shutil.rmtree(out)
+    pkg = out / 'optree'
     obj = out / 'obj'
     obj.mkdir(parents=True)
     srcs = cxx_sources(repo)
@@ -106,6 +111,11 @@ def build(repo: Path = REPO, san: bool = False, quiet: bool = True) -> Path:
         raise RuntimeError('link failed')
     shutil.rmtree(obj)
     (out / '.ok').write_text(f'{time.time() - t0:.1f}s\n')
+    try:
+        os.rename(out, final_out)
+    except OSError:
+        shutil.rmtree(out, ignore_errors=True)        # somebody else published the same build first
+    out = final_out
     _prune(key, kind)
     if not quiet:
         print(f'built {key} in {time.time() - t0:.1f}s', file=sys.stderr)
